@@ -724,7 +724,9 @@ func record(out string, n int) {
 			text := strings.Replace(t, "OWNER", owner, 1)
 			rr, err := dns.NewRR(text)
 			if err != nil || rr == nil {
-				hx.Die("zoo text %q does not parse: %v", text, err)
+				// the zoo is data, not an oracle: on the pinned tree every text parses (notes.stat must not show this key)
+				r.stat["zoo-text-does-not-parse"]++
+				continue
 			}
 			if P.nopres[int(rr.Header().Rrtype)] {
 				continue
